@@ -216,7 +216,61 @@ def check_masks(ctx, F):
                 elif adt == SUIT:
                     st = nm
         if rk is None or st is None:
-            raise U(rule, "a path of u64::from(&Card) is not selected by (rank, suit)", enc)
+            # computed encoding (`1 << (4 * rank + suit)`, `ACE_MASK << 4 * rank & SPADE_MASK << suit`): fold the result
+            # expression of this path for every (rank, suit) it leaves open, with the u8 codes of the two enums
+            t0 = dtree.PathProv(enc, p).local(0)
+            rcode = I.enum_match_table(F, F.impl_fn(f"std::convert::From<&{RANK}>", "u8", "from"), RANK)
+            scode = I.enum_match_table(F, F.impl_fn(f"std::convert::From<&{SUIT}>", "u8", "from"), SUIT)
+
+            def fold(t, r_, s_):
+                t = P.strip(t)
+                c = P.const_int(t)
+                if c is not None:
+                    return c
+                if t[0] == "cast":
+                    return fold(t[2], r_, s_)
+                if t[0] == "bin":
+                    a, b_ = fold(t[2], r_, s_), fold(t[3], r_, s_)
+                    if a is None or b_ is None:
+                        return None
+                    op = t[1]
+                    if op == "BitAnd":
+                        return a & b_
+                    if op == "BitOr":
+                        return a | b_
+                    if op == "Add":
+                        return a + b_
+                    if op == "Mul":
+                        return a * b_
+                    if op == "Sub" and a >= b_:
+                        return a - b_
+                    if op == "Shl" and 0 <= b_ < 64:
+                        return (a << b_) & ((1 << 64) - 1)
+                    return None
+                if t[0] == "call" and len(t[2]) == 1:
+                    g = F.fns.get(t[1])
+                    if g is not None and g.impl and g.impl.get("self_ty") == "u8":
+                        g = I.resolve_forwarding(F, g)
+                        arg = P.strip(t[2][0])
+                        if arg[0] == "field" and P.strip(arg[1]) == ("param", 1):
+                            fty = F.adts[CARD]["variants"][0]["fields"][arg[2]]["ty"]
+                            tab, v_ = (rcode, r_) if fty == RANK else (scode, s_) if fty == SUIT else (None, None)
+                            if tab is not None:
+                                return I.int_leaf(tab.get(v_))
+                        return None
+                    # u32::from(u8) / usize::from(..) / .into(): value-preserving widening of std
+                    if g is None and t[1].rsplit("::", 1)[-1] in ("from", "into"):
+                        return fold(t[2][0], r_, s_)
+                return None
+            for r_ in ([rk] if rk else list(RANK_ORDER)):
+                for s_ in ([st] if st else list(SUIT_ORDER)):
+                    v = fold(t0, r_, s_)
+                    if v is None:
+                        raise U(rule, f"bit of {r_}/{s_} is not a foldable expression of the rank and suit codes: {P.show(t0)[:120]}", enc)
+                    if (r_, s_) in bits:
+                        raise U(rule, f"two paths for ({r_}, {s_})", enc)
+                    bits[(r_, s_)] = v
+            continue
         # path-sensitive evaluation of the result expression
         env = {}
         for b in p.blocks:
@@ -389,8 +443,10 @@ def check_ranges(ctx, F, adt, order, range_ty, table_const, code_fn):
     adt_r = F.adts[range_ty]
     fields = [f["name"] for f in adt_r["variants"][0]["fields"]]
     tys = [f["ty"] for f in adt_r["variants"][0]["fields"]]
+    if tys == ["usize", "usize"]:
+        return check_ranges_half_open(ctx, F, rule, short, range_ty, table_const, code_fn, order, it0, pi0)
     if tys.count("usize") != 2 or tys.count("bool") != 1:
-        raise U(rule, f"{range_ty} is not (usize, usize, bool)")
+        raise U(rule, f"{range_ty} is not (usize, usize, bool) or (usize, usize)")
     f_bool = tys.index("bool")
     shapes = {}
     for ctor, incl in (("new", False), ("inclusive", True)):
@@ -479,6 +535,61 @@ def check_ranges(ctx, F, adt, order, range_ty, table_const, code_fn):
                           fn=it.path, file=it.file, line=it.blocks[bi]["line"])
     if set(found) != {True, False}:
         ctx.violation(rule, f"{it.path}|arms", "into_iter does not have one inclusive and one exclusive slicing arm", fn=it.path, file=it.file, line=it.line)
+
+
+def check_ranges_half_open(ctx, F, rule, short, range_ty, table_const, code_fn, order, it, pi):
+    """second representation: (start, end) with `end` always exclusive -- new -> (code(a), code(b)), inclusive ->
+    (code(a), code(b) + 1), all -> (0, len), into_iter -> table[start..end]"""
+    def code_of_param(t, k):
+        s_ = P.strip(t)
+        for _ in range(4):
+            if s_[0] == "cast":
+                s_ = P.strip(s_[2])
+            elif s_[0] == "call" and s_[1] not in F.fns and s_[1].rsplit("::", 1)[-1] in ("into", "from") and len(s_[2]) == 1:
+                s_ = P.strip(s_[2][0])
+            else:
+                break
+        if s_[0] == "call" and s_[1] in F.fns and len(s_[2]) == 1 and P.strip(s_[2][0]) == ("param", k):
+            return I.resolve_forwarding(F, F.fns[s_[1]]) is code_fn
+        return False
+    for ctor, plus in (("new", 0), ("inclusive", 1)):
+        fn = F.fn(f"{range_ty}::{ctor}")
+        ctx.analysed([fn])
+        r = P.Prov(fn).local(0)
+        if not (r[0] == "agg" and r[1].startswith("adt:" + range_ty) and len(r[2]) == 2):
+            raise U(rule, f"{ctor} does not build the range by a struct literal", fn)
+        e = P.strip(r[2][1])
+        if plus:
+            e_ok = e[0] == "bin" and e[1] == "Add" and P.const_int(e[3]) == 1 and code_of_param(e[2], 2)
+        else:
+            e_ok = code_of_param(e, 2)
+        if code_of_param(r[2][0], 1) and e_ok:
+            ctx.ok(rule, f"{short}::{ctor}(a, b) = (code(a), code(b){' + 1' if plus else ''}) half-open", sample=True)
+        else:
+            ctx.violation(rule, f"{fn.path}|fields", f"{short}::{ctor} stores {P.show(r)[:160]}; expected (code(start), code(end){' + 1' if plus else ''})",
+                          fn=fn.path, file=fn.file, line=fn.line)
+    fn = F.fn(f"{range_ty}::all")
+    r = P.Prov(fn).local(0)
+    end = P.strip(r[2][1]) if r[0] == "agg" and len(r[2]) == 2 else None
+    end_ok = end is not None and (P.const_int(end) == len(order) or (end[0] in ("call", "un", "len")))
+    if r[0] == "agg" and len(r[2]) == 2 and P.const_int(r[2][0]) == 0 and end_ok:
+        ctx.ok(rule, f"{short}::all() = (0, len) half-open")
+    else:
+        ctx.violation(rule, f"{fn.path}|fields", f"{short}::all stores {P.show(r)[:120]}", fn=fn.path, file=fn.file, line=fn.line)
+    ctx.analysed([it, fn])
+    slices = [(bi, t) for bi, t in it.calls() if t["callee"].get("name") == "index" and bi in it.cfg.reachable]
+    good = False
+    if len(slices) == 1 and not any(b_["term"]["k"] == "switch" for i_, b_ in enumerate(it.blocks) if i_ in it.cfg.reachable):
+        bi, t = slices[0]
+        base = P.strip(pi.operand(t["args"][0]))
+        rng = P.strip(pi.operand(t["args"][1]))
+        good = base[0] == "named" and base[1] == table_const and rng[0] == "agg" and rng[1].endswith("Range::Range") and \
+            P.strip(rng[2][0]) == ("field", ("param", 1), 0) and P.strip(rng[2][1]) == ("field", ("param", 1), 1)
+    if good:
+        ctx.ok(rule, f"into_iter: {table_const}[start..end]", sample=True)
+    else:
+        ctx.violation(rule, f"{it.path}|slice-half-open", "into_iter is not the single slice table[start..end] of the half-open representation",
+                      fn=it.path, file=it.file, line=it.line)
 
 
 def check_card_text(ctx, F):
